@@ -226,6 +226,31 @@ def check_partial(case: typing.Any, ctx: Ctx) -> Info:
         defs = defs + [{"name": "U", "version": [1, 0], "service": False, "port": None, "sealed": True, "size": 1}]
         refs.setdefault(len(defs) - 1, []).append(b)
         targets = sorted((set(targets) - {b}) | {a, len(defs) - 1})
+    # ... or a whole family (one name, one major, several minors) split in a drawn way between targets and definitions that are
+    # only reached through a reference - e.g. 1.1 and 1.3 read directly, 1.2 between them only as a dependency
+    if case.get("split") is not None:
+        families: typing.Dict[typing.Any, typing.List[int]] = {}
+        for i, x in enumerate(defs):
+            if x["name"] != "U":
+                families.setdefault((x["name"], x["version"][0]), []).append(i)
+        big = sorted((k for k, v in families.items() if len(v) >= 3), key=str) or sorted((k for k, v in families.items() if len(v) >= 2), key=str)
+        if big:
+            members = sorted(families[big[case["split"] % len(big)]], key=lambda i: defs[i]["version"][1])
+            mask = case["split"] // 7 % (2 ** len(members) - 2) + 1  # a non-empty proper subset becomes dependency-only
+            if len(members) >= 3 and case["split"] % 3 == 0 and not any(defs[m]["service"] for m in members):
+                # the port-ID rule is the one rule that is not transitive along the minors (a port may appear, never disappear):
+                # oldest and newest minor carry the same port-ID, the ones between them none, and exactly those are dependency-only
+                defs = [dict(x) for x in defs]
+                for b, m in enumerate(members):
+                    defs[m]["port"] = 0 if b in (0, len(members) - 1) else None
+                mask = (2 ** (len(members) - 1) - 1) & ~1
+            dep_only = [m for b, m in enumerate(members) if (mask >> b) & 1 and not defs[m]["service"]]
+            if dep_only and len(dep_only) < len(members):
+                defs = defs + [{"name": "U", "version": [1, 1], "service": False, "port": None, "sealed": True, "size": 1}]
+                u = len(defs) - 1
+                for m in dep_only:
+                    refs.setdefault(u, []).append(m)
+                targets = sorted((set(targets) - set(dep_only)) | (set(members) - set(dep_only)) | {u})
     closure = set(targets)
     todo = list(targets)
     while todo:
@@ -305,6 +330,7 @@ def parts(ctx: Ctx) -> typing.List[Part]:
             "api": st.sampled_from(["files", "files", "split"]),
             "reverse": st.booleans(),
             "force": st.one_of(st.none(), st.integers(0, 30), st.integers(0, 30)),
+            "split": st.one_of(st.none(), st.integers(0, 2000)),
         }
     )
     return [Part("target", target_cases, check_target, weight=3), Part("lookup", lookup_cases, check_lookup, weight=1), Part("partial", partial_cases, check_partial, weight=2)]
